@@ -7,7 +7,7 @@
     c16.open N k row_1 … row_k        rows = result of the cursor's query now     → ok | E<code>
     c16.fetch N next|prior|first|last | abs n | rel n                              → row <tok> | none | E<code>
     c16.fetchbad N                    position number is not an integer            → E11008
-    c16.isopen N | inrange N          → T | F | U | E<code>
+    c16.isopen N [not] | inrange N [not]   CURSOR N IS [NOT] OPEN / IN RANGE (`cursorStatus`) → T | F | U | E<code>
     c16.count N                       → I<n> | E<code>
     c16.while N k|-                   WHILE IN, BREAK in the k-th iteration        → rows <n> tok… | E<code>
     c16.dml                           a data-changing statement                    → ok
@@ -32,6 +32,11 @@ def showRes : Res String → String
   | .int n => "I" ++ toString n
   | .rows l => String.intercalate " " ("rows" :: toString l.length :: l)
 
+/-- the negated spelling of a status expression: `cursorStatus true` -/
+def negStatus : Res String → Res String
+  | .tern t => match cursorStatus true (.ok t) with | .ok t' => .tern t' | .error e => .err e
+  | r => r
+
 def parsePos : List String → Option Pos
   | ["next"] => some .next
   | ["prior"] => some .prior
@@ -50,6 +55,8 @@ def parseC16 (cmd : String) (args : List String) : Option (Op String) :=
   | "fetch", n :: pos => (parsePos pos).map (.fetch n)
   | "fetchbad", [n] => some (.fetchBad n)
   | "isopen", [n] => some (.isOpen n)
+  | "isopen", [n, "not"] => some (.isOpen n)
+  | "inrange", [n, "not"] => some (.isInRange n)
   | "inrange", [n] => some (.isInRange n)
   | "count", [n] => some (.count n)
   | "while", [n, "-"] => some (.whileIn n none)
@@ -134,7 +141,8 @@ partial def c16Loop (h out : IO.FS.Stream) (s : Scope String) : IO Unit := do
       match parseC16 cmd args with
       | some op =>
         let r := step s op
-        out.putStrLn (showRes r.2)
+        let res := if args.getLast? = some "not" && (cmd = "isopen" || cmd = "inrange") then negStatus r.2 else r.2
+        out.putStrLn (showRes res)
         c16Loop h out r.1
       | none =>
         out.putStrLn "bad-op"
